@@ -208,8 +208,40 @@ pub fn case_from_fuzz(data: &[u8]) -> Option<StreamCase> {
     Some(StreamCase { packets, chunks, eof, picky: false })
 }
 
+/// The acknowledgement read inside `write_packet_with_ack` is a read like any other: it consumes precisely the packet the
+/// terminal answered with (3- or 5-byte header + announced data block), whatever it carries, and leaves the next packet alone.
+pub fn check_ack_stream(answer: &[u8], next: &[u8], chunks: &[usize]) -> CheckResult {
+    let input = json!({"answer": hex(answer), "next": hex(next), "chunks": chunks});
+    let mut data = answer.to_vec();
+    data.extend_from_slice(next);
+    let mut tr = PacketTransport { source: Peer::preloaded(data, chunks.to_vec(), None) };
+    let cmd = Blob { data: "0102".into() };
+    let res = guard(|| block_on(tr.write_packet_with_ack(&cmd)).map_err(|e| format!("{e:#}"))).map_err(|e| Violation::new("ack", "C04 kind=panic".to_string(), e, input.clone()))?;
+    let positive = answer.len() >= 2 && answer[0] == 0x80 && answer[1] == 0x00;
+    if positive != res.is_ok() {
+        return Err(Violation::new("ack", "C04 kind=acknowledgement-misjudged".to_string(), format!("the terminal answered {}; write_packet_with_ack returned {:?}", clip(&hex(answer), 60), res), input));
+    }
+    let mut pos = 0usize;
+    for ev in &tr.source.log {
+        if let Ev::Read { asked, got } = ev {
+            if pos + asked > answer.len() {
+                return Err(Violation::new("ack", "C04 kind=read-ahead".to_string(), format!("while reading the {}-byte answer the reader asked for {asked} bytes at offset {pos}", answer.len()), input));
+            }
+            pos += got;
+        }
+    }
+    if tr.source.delivered() != answer.len() {
+        return Err(Violation::new("ack", "C04 kind=acknowledgement-not-consumed-precisely".to_string(), format!("the answer {} is {} bytes long; the acknowledgement read consumed {}", clip(&hex(answer), 40), answer.len(), tr.source.delivered()), input));
+    }
+    match guard(|| block_on(tr.read_packet::<RawFrame>())).map_err(|e| Violation::new("ack", "C04 kind=panic".to_string(), e, input.clone()))? {
+        Ok(RawFrame(f)) if f == next => Ok(()),
+        other => Err(Violation::new("ack", "C04 kind=wrong-frame".to_string(), format!("behind the answer comes {}; read_packet returned {:?}", clip(&hex(next), 60), other.map(|f| clip(&hex(&f.0), 60)).map_err(|e| e.to_string())), input)),
+    }
+}
+
 pub fn replay(check: &str, i: &Value) -> Option<CheckResult> {
     Some(match check {
+        "ack" => check_ack_stream(&unhex(i.get("answer")?.as_str()?), &unhex(i.get("next")?.as_str()?), &serde_json::from_value::<Vec<usize>>(i.get("chunks")?.clone()).ok()?),
         "stream" => check_stream(&serde_json::from_value(i.clone()).ok()?),
         "header" => check_header(i.get("body_len")?.as_u64()? as usize),
         _ => return None,
@@ -334,6 +366,32 @@ pub fn run(tier: Tier) -> i32 {
             }
         }
     }
+    // the acknowledgement read of write_packet_with_ack: answers with data blocks of every length around the switch to the
+    // extended form, in canonical and non-canonical headers, positive and negative, x what follows x chunk schedules
+    {
+        let mut st = Stats::new();
+        let mut answers: Vec<Vec<u8>> = vec![vec![0x84, 0x9a, 0x00], vec![0x84, 0x00, 0x02, 0x01, 0x02], vec![0x06, 0x0f, 0x00]];
+        for n in [0usize, 1, 3, 253, 254, 255, 256, 257, 300, 1000, 65535] {
+            answers.push(ref_frame(0x80, 0x00, &blob_body(n, n as u8)));
+            if n < 255 {
+                let b = blob_body(n, 7);
+                let mut o = vec![0x80, 0x00, 0xff, n as u8, 0];
+                o.extend(b);
+                answers.push(o);
+            }
+        }
+        let nexts: Vec<Vec<u8>> = vec![vec![0x06, 0x0f, 0x00], vec![0x04, 0xff, 0x02, 0x17, 0x00], ref_frame(0x06, 0xd1, &blob_body(300, 1))];
+        for a in &answers {
+            for nx in &nexts {
+                for ch in [vec![], vec![1usize], vec![2, 3], vec![4, 1, 300]] {
+                    st.case(a.len() > 3, fnv(&[a.as_slice(), nx.as_slice(), &[ch.len() as u8]].concat()));
+                    st.class("acknowledgement-read");
+                    ctx.record(check_ack_stream(a, nx, &ch), &mut st);
+                }
+            }
+        }
+        stats.merge(st);
+    }
     let nrand: u32 = tier.pick(20_000, 400_000);
     let big = tier.pick(2u32, 6);
     let s = ctx.shards("random", 16, |_i, seed, st| {
@@ -399,7 +457,7 @@ pub fn run(tier: Tier) -> i32 {
     stats.exhaustive_parts = vec!["writer/reader header agreement for every body length 0..=65535".into(), "all 2^(n-1) chunkings of 4 short packet concatenations (8..14 bytes)".into()];
     ctx.finish(
         stats,
-        "header sweep over all body lengths (writer output vs reference header; reader on one chunk and byte-wise header); all chunkings of short concatenations x end-of-stream positions; proptest sequences of 1..5 packets (reference-encoded canonical commands, blobs with body lengths around 0/254/255/65535, extended-form headers) x chunk schedules (all-at-once, 1-byte, random partitions; a Pending wake-up between chunks) x end-of-stream offsets x the parser handed to read_packet (one that returns the frame, or one that rejects every control field with an odd instruction byte the way the derived reply enums reject foreign ones). Oracle: frames returned = the packets in order (a rejected packet yields an error and is consumed like any other); after packet i the read cursor is exactly at its end and no read asked beyond it; a stream ending inside a packet or at a boundary yields an error. non-trivial = (>= 2 packets and a chunk boundary inside a header) or an extended-length packet; distinct by (packets, schedule, eof)",
+        "the acknowledgement read of write_packet_with_ack (answers with data blocks of 0..65535 bytes, canonical and ff-form headers, negative answers: consumed precisely, the next packet intact); header sweep over all body lengths (writer output vs reference header; reader on one chunk and byte-wise header); all chunkings of short concatenations x end-of-stream positions; proptest sequences of 1..5 packets (reference-encoded canonical commands, blobs with body lengths around 0/254/255/65535, extended-form headers) x chunk schedules (all-at-once, 1-byte, random partitions; a Pending wake-up between chunks) x end-of-stream offsets x the parser handed to read_packet (one that returns the frame, or one that rejects every control field with an odd instruction byte the way the derived reply enums reject foreign ones). Oracle: frames returned = the packets in order (a rejected packet yields an error and is consumed like any other); after packet i the read cursor is exactly at its end and no read asked beyond it; a stream ending inside a packet or at a boundary yields an error. non-trivial = (>= 2 packets and a chunk boundary inside a header) or an extended-length packet; distinct by (packets, schedule, eof)",
         &["RawFrame (harness ZvtParser copying its input) makes read_packet return what the transport framed", "in-memory streams never produce short writes"],
         false,
     )
